@@ -5,20 +5,96 @@ Section IndexProofs.
 Variable L : Type.
 Variable leq : L -> L -> bool.
 Variable as_pos : L -> option Z.
+Hypothesis leq_refl : forall a, leq a a = true.
 Hypothesis leq_sym : forall a b, leq a b = leq b a.
+(* two int-like labels are equal exactly when they denote the same integer *)
+Hypothesis pos_eq : forall a b x y, as_pos a = Some x -> as_pos b = Some y -> leq a b = (x =? y).
 
 Notation mem := (mem L leq).
 Notation nodupb := (nodupb L leq).
 Notation fresh_all := (fresh_all L leq).
+Notation index_of := (index_of L leq).
+Notation S_append := (S_append L leq).
+Notation S_extend := (S_extend L leq).
 Notation S_istep := (S_istep L leq).
 Notation S_irun := (S_irun L leq).
 Notation S_igiven := (S_igiven L leq).
+Notation M_contains := (M_contains L leq as_pos).
+Notation M_contains_state := (M_contains_state L as_pos).
+Notation M_append := (M_append L leq as_pos).
+Notation M_extend := (M_extend L leq as_pos).
+Notation M_istep := (M_istep L leq as_pos).
+Notation M_irun := (M_irun L leq as_pos).
+Notation M_lookup := (M_lookup L leq as_pos).
+Notation M_iobserve := (M_iobserve L leq as_pos).
+Notation S_iobserve := (S_iobserve L).
+Notation dom_append := (dom_append L leq as_pos).
+Notation dom_extend := (dom_extend L leq as_pos).
+Notation dom_iop := (dom_iop L leq as_pos).
+Notation dom_irun := (dom_irun L leq as_pos).
+Notation M_len := (M_len L).
 
+(* ------------------------------------------------------------------ list facts *)
+Local Arguments GrowOnly.mem : simpl never.
+Lemma mem_nil : forall v, mem v [] = false.
+Proof. reflexivity. Qed.
+Lemma mem_cons : forall v x xs, mem v (x :: xs) = leq v x || mem v xs.
+Proof. reflexivity. Qed.
+Lemma mem_app : forall v a b, mem v (a ++ b) = mem v a || mem v b.
+Proof. intros. unfold GrowOnly.mem. apply existsb_app. Qed.
+
+Lemma mem_snoc : forall v l w, mem v (l ++ [w]) = mem v l || leq v w.
+Proof. intros. rewrite mem_app, mem_cons, mem_nil. now rewrite orb_false_r. Qed.
+
+Lemma nodupb_app : forall a b,
+  nodupb (a ++ b) = nodupb a && nodupb b && forallb (fun x => negb (mem x b)) a.
+Proof.
+  induction a as [|x xs IH]; intros b; cbn.
+  - now rewrite andb_true_r.
+  - rewrite IH, mem_app, negb_orb.
+    destruct (mem x xs), (mem x b), (GrowOnly.nodupb L leq xs), (GrowOnly.nodupb L leq b); cbn; try reflexivity.
+Qed.
+
+Lemma forallb_notmem_single : forall l v,
+  forallb (fun x => negb (mem x [v])) l = negb (mem v l).
+Proof.
+  induction l as [|x xs IH]; intros v; cbn; [reflexivity|].
+  rewrite IH, !mem_cons, !mem_nil, orb_false_r, (leq_sym v x). now rewrite negb_orb.
+Qed.
+
+Lemma nodupb_snoc : forall l v, nodupb (l ++ [v]) = nodupb l && negb (mem v l).
+Proof.
+  intros. rewrite nodupb_app, forallb_notmem_single. cbn. now rewrite andb_true_r.
+Qed.
+
+Lemma forallb_notmem_cons_mem : forall l v r,
+  mem v l = true -> forallb (fun x => negb (mem x (v :: r))) l = false.
+Proof.
+  induction l as [|x xs IH]; intros v r H; [discriminate|].
+  rewrite mem_cons in H. cbn [forallb]. rewrite mem_cons.
+  apply orb_true_iff in H as [H|H].
+  - rewrite (leq_sym x v), H. reflexivity.
+  - rewrite (IH _ r H). apply andb_false_r.
+Qed.
+
+(* the "every label new" test of the specification is exactly: the result has no duplicates *)
+Lemma fresh_all_nodup : forall vs l, nodupb l = true -> fresh_all l vs = nodupb (l ++ vs).
+Proof.
+  induction vs as [|v r IH]; intros l Hl; cbn.
+  - now rewrite app_nil_r, Hl.
+  - destruct (mem v l) eqn:Hm; cbn.
+    + rewrite nodupb_app, (forallb_notmem_cons_mem _ _ r Hm). now rewrite andb_false_r.
+    + rewrite IH.
+      * now rewrite <- app_assoc.
+      * now rewrite nodupb_snoc, Hl, Hm.
+Qed.
+
+(* ------------------------------------------------------------------ laws of the specification *)
 Lemma S_istep_given : forall l op l1 o,
   S_istep l op = (l1, o) ->
   l1 = l ++ match op, o with IAppend v, Ok _ => [v] | IExtend vs, Ok _ => vs | _, _ => [] end.
 Proof.
-  intros l [v|vs|] l1 o; cbn; unfold S_append, S_extend.
+  intros l [v|vs|] l1 o; cbn; unfold GrowOnly.S_append, GrowOnly.S_extend.
   - destruct (mem v l); intros E; inversion E; subst; now rewrite ?app_nil_r.
   - destruct (fresh_all l vs); intros E; inversion E; subst; now rewrite ?app_nil_r.
   - intros E; inversion E; subst; now rewrite app_nil_r.
@@ -31,9 +107,367 @@ Theorem S_irun_append_only : forall ops l,
 Proof.
   induction ops as [|op r IH]; intros l; cbn.
   - now rewrite app_nil_r.
-  - destruct (S_istep l op) as [l1 o] eqn:E.
-    specialize (IH l1). destruct (S_irun l1 r) as [l2 os] eqn:E2. cbn in *.
+  - destruct (GrowOnly.S_istep L leq l op) as [l1 o] eqn:E.
+    specialize (IH l1). destruct (GrowOnly.S_irun L leq l1 r) as [l2 os] eqn:E2. cbn in *.
     rewrite IH. apply S_istep_given in E. rewrite E at 1. rewrite <- app_assoc. reflexivity.
+Qed.
+
+(* all or nothing, and rejection of duplicates, for every single call *)
+Lemma S_istep_all_or_nothing : forall l op l1 e, S_istep l op = (l1, Err e) -> l1 = l.
+Proof.
+  intros l [v|vs|] l1 e; cbn; unfold GrowOnly.S_append, GrowOnly.S_extend.
+  - destruct (mem v l); intros E; inversion E; reflexivity.
+  - destruct (fresh_all l vs); intros E; inversion E; reflexivity.
+  - intros E; inversion E.
+Qed.
+
+Lemma S_istep_nodup : forall l op, nodupb l = true -> nodupb (fst (S_istep l op)) = true.
+Proof.
+  intros l [v|vs|] Hl; cbn; unfold GrowOnly.S_append, GrowOnly.S_extend; auto.
+  - destruct (mem v l) eqn:Hm; cbn; auto. now rewrite nodupb_snoc, Hl, Hm.
+  - destruct (fresh_all l vs) eqn:Hf; cbn; auto. now rewrite <- fresh_all_nodup.
+Qed.
+
+Theorem S_irun_nodup : forall ops l, nodupb l = true -> nodupb (fst (S_irun l ops)) = true.
+Proof.
+  induction ops as [|op r IH]; intros l Hl; cbn; auto.
+  pose proof (S_istep_nodup l op Hl) as H1.
+  destruct (GrowOnly.S_istep L leq l op) as [l1 o]. cbn in H1.
+  specialize (IH l1 H1). destruct (GrowOnly.S_irun L leq l1 r). exact IH.
+Qed.
+
+Lemma S_append_rejects : forall l v, mem v l = true -> S_append l v = (l, Err "KeyError"%string).
+Proof. intros l v H. unfold GrowOnly.S_append. now rewrite H. Qed.
+
+Lemma S_extend_rejects : forall l vs, nodupb l = true -> nodupb (l ++ vs) = false ->
+  S_extend l vs = (l, Err "KeyError"%string).
+Proof. intros l vs Hl H. unfold GrowOnly.S_extend. now rewrite fresh_all_nodup, H. Qed.
+
+(* ------------------------------------------------------------------ the implementation model *)
+(* well-formed IndexGO state: count, uniqueness, map or auto positions, cache *)
+Definition igo_wf (s : igo L) : Prop :=
+  g_cnt s = Z.of_nat (length (g_lm s)) /\
+  nodupb (g_lm s) = true /\
+  match g_map s with
+  | Some keys => keys = g_lm s
+  | None => map as_pos (g_lm s) = map Some (zrange (g_cnt s))
+  end /\
+  (g_recache s = false -> g_arr s = g_lm s /\ g_npos s = g_cnt s).
+
+Lemma zrange_from_snoc : forall n k, zrange_from k (S n) = zrange_from k n ++ [k + Z.of_nat n].
+Proof.
+  induction n as [|n IH]; intros k.
+  - cbn. now rewrite Z.add_0_r.
+  - change (zrange_from k (S (S n))) with (k :: zrange_from (k + 1) (S n)).
+    rewrite IH. cbn [zrange_from app]. f_equal. f_equal. f_equal. lia.
+Qed.
+
+Lemma zrange_snoc : forall n, 0 <= n -> zrange (n + 1) = zrange n ++ [n].
+Proof.
+  intros n Hn. unfold zrange. replace (Z.to_nat (n + 1)) with (S (Z.to_nat n)) by lia.
+  rewrite zrange_from_snoc. f_equal. f_equal. lia.
+Qed.
+
+Lemma zrange_from_length : forall n k, length (zrange_from k n) = n.
+Proof. induction n; intros; cbn; auto. Qed.
+
+Lemma zrange_from_In : forall n k z, In z (zrange_from k n) <-> k <= z < k + Z.of_nat n.
+Proof.
+  induction n as [|n IH]; intros k z; cbn [zrange_from In].
+  - lia.
+  - rewrite IH. lia.
+Qed.
+
+(* on an auto index an int-like label is a member exactly when it is a position *)
+Lemma mem_auto : forall (lm : list L) k n v z,
+  map as_pos lm = map Some (zrange_from k n) -> as_pos v = Some z ->
+  mem v lm = (k <=? z) && (z <? k + Z.of_nat n).
+Proof.
+  induction lm as [|x xs IH]; intros k n v z Hm Hv; destruct n as [|n]; cbn in Hm; try discriminate.
+  - rewrite mem_nil. lia.
+  - injection Hm as Hx Hxs. rewrite mem_cons.
+    rewrite (IH _ _ _ _ Hxs Hv), (pos_eq _ _ _ _ Hv Hx). lia.
+Qed.
+
+Lemma wf_len_refresh : forall s, igo_wf s -> M_len s = g_cnt s.
+Proof.
+  intros s (Hc & _ & _ & Hr). unfold GrowOnly.M_len, M_refresh.
+  destruct (g_recache s) eqn:E; cbn.
+  - now rewrite Hc.
+  - destruct (Hr eq_refl) as [Ha _]. now rewrite Ha, Hc.
+Qed.
+
+Lemma wf_refresh : forall s, igo_wf s -> igo_wf (M_refresh s).
+Proof.
+  intros s (Hc & Hn & Hm & Hr). unfold M_refresh. destruct (g_recache s) eqn:E.
+  - unfold igo_wf; cbn. intuition auto.
+  - unfold igo_wf. intuition auto.
+Qed.
+
+Lemma refresh_lm : forall s : igo L, g_lm (M_refresh s) = g_lm s.
+Proof. intros s. unfold M_refresh. now destruct (g_recache s). Qed.
+Lemma refresh_map : forall s : igo L, g_map (M_refresh s) = g_map s.
+Proof. intros s. unfold M_refresh. now destruct (g_recache s). Qed.
+Lemma refresh_cnt : forall s : igo L, g_cnt (M_refresh s) = g_cnt s.
+Proof. intros s. unfold M_refresh. now destruct (g_recache s). Qed.
+
+Lemma contains_state_wf : forall s v, igo_wf s -> igo_wf (M_contains_state s v).
+Proof.
+  intros s v H. unfold GrowOnly.M_contains_state.
+  destruct (g_map s); auto. destruct (as_pos v); auto. destruct (0 <=? z); auto using wf_refresh.
+Qed.
+Lemma contains_state_lm : forall s v, g_lm (M_contains_state s v) = g_lm s.
+Proof.
+  intros. unfold GrowOnly.M_contains_state.
+  destruct (g_map s); auto. destruct (as_pos v); auto. destruct (0 <=? z); auto using refresh_lm.
+Qed.
+Lemma contains_state_map : forall s v, g_map (M_contains_state s v) = g_map s.
+Proof.
+  intros. unfold GrowOnly.M_contains_state.
+  destruct (g_map s) eqn:E; auto. destruct (as_pos v); auto. destruct (0 <=? z); auto.
+  now rewrite refresh_map.
+Qed.
+Lemma contains_state_cnt : forall s v, g_cnt (M_contains_state s v) = g_cnt s.
+Proof.
+  intros. unfold GrowOnly.M_contains_state.
+  destruct (g_map s); auto. destruct (as_pos v); auto. destruct (0 <=? z); auto using refresh_cnt.
+Qed.
+
+(* membership as the implementation computes it is membership in the labels (inside the guard) *)
+Lemma contains_correct : forall s v, igo_wf s -> dom_append s v = true ->
+  M_contains s v = mem v (g_lm s).
+Proof.
+  intros s v Hwf Hd. pose proof (wf_len_refresh s Hwf) as Hlen.
+  destruct Hwf as (Hc & Hn & Hm & Hr).
+  unfold GrowOnly.M_contains, GrowOnly.dom_append in *. destruct (g_map s) as [keys|].
+  - now subst keys.
+  - destruct (as_pos v) as [z|] eqn:Hv.
+    + rewrite Hlen. unfold zrange in Hm. rewrite (mem_auto _ _ _ _ _ Hm Hv). lia.
+    + symmetry. now apply negb_true_iff.
+Qed.
+
+(* one append inside the guard: same outcome and same labels as the specification, and still well formed *)
+Definition step_refines (r : igo L * outcome) (r' : list L * outcome) : Prop :=
+  igo_wf (fst r) /\ g_lm (fst r) = fst r' /\ is_ok (snd r) = is_ok (snd r').
+
+Lemma wf_cnt_nonneg : forall s, igo_wf s -> 0 <= g_cnt s.
+Proof. intros s (Hc & _). lia. Qed.
+
+Lemma M_append_refines : forall s v, igo_wf s -> dom_append s v = true ->
+  step_refines (M_append s v) (S_append (g_lm s) v).
+Proof.
+  intros s v Hwf Hd. unfold GrowOnly.M_append, GrowOnly.S_append.
+  rewrite (contains_correct s v Hwf Hd).
+  pose proof (contains_state_wf s v Hwf) as Hwf1.
+  pose proof (contains_state_lm s v) as Hlm1.
+  pose proof (contains_state_cnt s v) as Hcnt1.
+  destruct (mem v (g_lm s)) eqn:Hm.
+  - split; [exact Hwf1 | split; [exact Hlm1 | reflexivity]].
+  - set (s1 := GrowOnly.M_contains_state L as_pos s v) in *.
+    pose proof (wf_cnt_nonneg _ Hwf1) as Hnn.
+    destruct Hwf1 as (Hc & Hn & Hmap & Hr).
+    assert (Hnd : nodupb (g_lm s1 ++ [v]) = true) by (rewrite nodupb_snoc, Hn, Hlm1, Hm; reflexivity).
+    assert (Hlen : g_cnt s1 + 1 = Z.of_nat (length (g_lm s1 ++ [v]))) by (rewrite app_length; cbn; lia).
+    destruct (g_map s1) as [keys|] eqn:Emap.
+    + subst keys. unfold step_refines, igo_wf; cbn. rewrite Hlm1 in *. intuition (auto; discriminate).
+    + destruct (as_pos v) as [z|] eqn:Hv.
+      * destruct (z =? g_cnt s1) eqn:Hz.
+        -- unfold step_refines, igo_wf; cbn. rewrite <- Hlm1. repeat split; auto; try discriminate.
+           rewrite map_app, Hmap, (zrange_snoc _ Hnn), map_app. cbn. rewrite Hv. repeat f_equal. lia.
+        -- rewrite Hnd. unfold step_refines, igo_wf; cbn. rewrite <- Hlm1. repeat split; auto; discriminate.
+      * rewrite Hnd. unfold step_refines, igo_wf; cbn. rewrite <- Hlm1. repeat split; auto; discriminate.
+Qed.
+
+Lemma M_append_ok_iff : forall s v, igo_wf s -> dom_append s v = true ->
+  is_ok (snd (M_append s v)) = negb (mem v (g_lm s)).
+Proof.
+  intros s v Hwf Hd. destruct (M_append_refines s v Hwf Hd) as (_ & _ & H). rewrite H.
+  unfold GrowOnly.S_append. now destruct (mem v (g_lm s)).
+Qed.
+
+(* extend when no failure is allowed: every label is new and all are appended *)
+Lemma M_extend_all : forall vs s, igo_wf s -> dom_extend s vs false = true ->
+  fresh_all (g_lm s) vs = true /\
+  igo_wf (fst (M_extend s vs)) /\ g_lm (fst (M_extend s vs)) = g_lm s ++ vs /\
+  is_ok (snd (M_extend s vs)) = true.
+Proof.
+  induction vs as [|v r IH]; intros s Hwf Hd; cbn in *.
+  - rewrite app_nil_r. auto.
+  - apply andb_true_iff in Hd as [Hda Hd].
+    pose proof (M_append_refines s v Hwf Hda) as (Hw1 & Hl1 & Ho1).
+    pose proof (M_append_ok_iff s v Hwf Hda) as Hok.
+    destruct (GrowOnly.M_append L leq as_pos s v) as [s1 o] eqn:E. cbn in *.
+    destruct o as [u|e]; [|discriminate].
+    cbn in Hok. symmetry in Hok. rewrite Hok. cbn.
+    unfold GrowOnly.S_append in Hl1. apply negb_true_iff in Hok. rewrite Hok in Hl1. cbn in Hl1.
+    destruct (IH s1 Hw1 Hd) as (Hf & Hw2 & Hl2 & Ho2). rewrite Hl1 in *.
+    refine (conj Hf (conj Hw2 (conj _ Ho2))). rewrite Hl2, <- app_assoc. reflexivity.
+Qed.
+
+Lemma M_extend_refines : forall vs s, igo_wf s -> dom_extend s vs true = true ->
+  step_refines (M_extend s vs) (S_extend (g_lm s) vs).
+Proof.
+  intros [|v r] s Hwf Hd; unfold GrowOnly.S_extend.
+  - cbn. unfold step_refines; cbn. rewrite app_nil_r. auto.
+  - cbn in Hd. apply andb_true_iff in Hd as [Hda Hd].
+    pose proof (M_append_refines s v Hwf Hda) as (Hw1 & Hl1 & Ho1).
+    pose proof (M_append_ok_iff s v Hwf Hda) as Hok.
+    cbn [GrowOnly.M_extend GrowOnly.fresh_all].
+    destruct (GrowOnly.M_append L leq as_pos s v) as [s1 o] eqn:E. cbn in *.
+    unfold GrowOnly.S_append in Hl1.
+    destruct o as [u|e]; cbn in Hok; symmetry in Hok.
+    + apply negb_true_iff in Hok. rewrite Hok in *. cbn in *.
+      destruct (M_extend_all r s1 Hw1 Hd) as (Hf & Hw2 & Hl2 & Ho2).
+      rewrite Hl1 in *. rewrite Hf. unfold step_refines; cbn.
+      refine (conj Hw2 (conj _ Ho2)). rewrite Hl2, <- app_assoc. reflexivity.
+    + apply negb_false_iff in Hok. rewrite Hok in *. cbn in *.
+      unfold step_refines; cbn. auto.
+Qed.
+
+Lemma M_istep_refines : forall s op, igo_wf s -> dom_iop s op = true ->
+  step_refines (M_istep s op) (S_istep (g_lm s) op).
+Proof.
+  intros s [v|vs|] Hwf Hd; cbn in *.
+  - now apply M_append_refines.
+  - now apply M_extend_refines.
+  - unfold step_refines; cbn. split; [now apply wf_refresh|]. split; auto using refresh_lm.
+Qed.
+
+(* REFINEMENT over every history inside the guard: the labels held by the implementation model are
+   the labels of the specification, call by call the same calls are accepted, and the state stays
+   well formed (count, uniqueness, map / auto positions, cache) *)
+Theorem igo_refines : forall ops s, igo_wf s -> dom_irun s ops = true ->
+  igo_wf (fst (M_irun s ops)) /\
+  g_lm (fst (M_irun s ops)) = fst (S_irun (g_lm s) ops) /\
+  map is_ok (snd (M_irun s ops)) = map is_ok (snd (S_irun (g_lm s) ops)).
+Proof.
+  induction ops as [|op r IH]; intros s Hwf Hd; cbn in *; auto.
+  apply andb_true_iff in Hd as [Hd1 Hd2].
+  pose proof (M_istep_refines s op Hwf Hd1) as (Hw1 & Hl1 & Ho1).
+  destruct (GrowOnly.M_istep L leq as_pos s op) as [s1 o] eqn:E1.
+  destruct (GrowOnly.S_istep L leq (g_lm s) op) as [l1 o'] eqn:E2. cbn in *.
+  destruct (IH s1 Hw1 Hd2) as (Hw2 & Hl2 & Ho2). subst l1.
+  destruct (GrowOnly.M_irun L leq as_pos s1 r) as [s2 os].
+  destruct (GrowOnly.S_irun L leq (g_lm s1) r) as [l2 os']. cbn in *.
+  refine (conj Hw2 (conj Hl2 _)). now rewrite Ho1, Ho2.
+Qed.
+
+(* what a reader sees of a well-formed index is what the specification says: the labels, as many
+   positions as labels, and every label found at its own position *)
+Lemma index_of_skip : forall pre v rest k, mem v pre = false ->
+  index_of v (pre ++ rest) k = index_of v rest (k + Z.of_nat (length pre)).
+Proof.
+  induction pre as [|x xs IH]; intros v rest k H.
+  - cbn. now rewrite Z.add_0_r.
+  - rewrite mem_cons in H. apply orb_false_iff in H as [H1 H2].
+    cbn [app GrowOnly.index_of]. rewrite H1, (IH _ _ _ H2). f_equal. cbn [length]. lia.
+Qed.
+
+Lemma nodup_app_notmem : forall pre x r, nodupb (pre ++ x :: r) = true -> mem x pre = false.
+Proof.
+  intros pre x r H. rewrite nodupb_app in H. apply andb_true_iff in H as [_ H].
+  destruct (mem x pre) eqn:E; auto. now rewrite (forallb_notmem_cons_mem _ _ r E) in H.
+Qed.
+
+Lemma index_of_nodup : forall (l pre : list L), nodupb (pre ++ l) = true ->
+  map (fun v => index_of v (pre ++ l) 0) l = map Some (zrange_from (Z.of_nat (length pre)) (length l)).
+Proof.
+  induction l as [|x r IH]; intros pre H; [reflexivity|].
+  cbn [map length zrange_from]. f_equal.
+  - rewrite (index_of_skip _ _ _ _ (nodup_app_notmem _ _ _ H)). cbn. now rewrite leq_refl.
+  - replace (pre ++ x :: r) with ((pre ++ [x]) ++ r) in * by (now rewrite <- app_assoc).
+    rewrite (IH _ H). rewrite app_length. cbn. do 2 f_equal. lia.
+Qed.
+
+Lemma lookup_auto : forall (lm : list L) k n N,
+  map as_pos lm = map Some (zrange_from k n) -> 0 <= k -> k + Z.of_nat n <= N ->
+  map (fun v => match as_pos v with
+                | Some z => if (0 <=? z) && (z <? N) then Some z else None
+                | None => None
+                end) lm = map Some (zrange_from k n).
+Proof.
+  induction lm as [|x xs IH]; intros k n N Hm Hk HN; destruct n as [|n]; cbn in Hm; try discriminate; [reflexivity|].
+  injection Hm as Hx Hxs. cbn [map zrange_from]. rewrite Hx. f_equal.
+  - replace ((0 <=? k) && (k <? N)) with true by lia. reflexivity.
+  - apply IH; auto; lia.
+Qed.
+
+Theorem igo_observe : forall s, igo_wf s -> M_iobserve s = S_iobserve (g_lm s).
+Proof.
+  intros s Hwf. pose proof (wf_refresh s Hwf) as Hwf'.
+  unfold GrowOnly.M_iobserve, GrowOnly.S_iobserve.
+  set (s' := M_refresh s) in *.
+  assert (Hre : g_recache s' = false) by (unfold s', M_refresh; destruct (g_recache s) eqn:E; auto).
+  assert (Hlm : g_lm s' = g_lm s) by apply refresh_lm.
+  destruct Hwf' as (Hc & Hn & Hm & Hr). destruct (Hr Hre) as [Ha Hp].
+  rewrite Ha, Hp, Hc, Hlm. f_equal.
+  destruct (g_map s') as [keys|] eqn:E.
+  - subst keys. rewrite (map_ext (M_lookup s') (fun v => index_of v (g_lm s') 0)).
+    + rewrite <- Hlm. pose proof (index_of_nodup (g_lm s') [] Hn) as H. cbn in H. rewrite H.
+      unfold zrange. now rewrite Nat2Z.id.
+    + intros v. unfold GrowOnly.M_lookup. now rewrite E.
+  - rewrite (map_ext (M_lookup s') (fun v => match as_pos v with
+                | Some z => if (0 <=? z) && (z <? Z.of_nat (length (g_lm s'))) then Some z else None
+                | None => None end)).
+    + rewrite Hc in Hm. unfold zrange in *. rewrite Nat2Z.id in *. rewrite <- Hlm.
+      apply lookup_auto; auto; lia.
+    + intros v. unfold GrowOnly.M_lookup. now rewrite E, Ha.
+Qed.
+
+(* consequences for the implementation model, for every history inside the guard *)
+Corollary igo_M_append_only : forall ops s, igo_wf s -> dom_irun s ops = true ->
+  g_lm (fst (M_irun s ops)) = g_lm s ++ S_igiven (g_lm s) ops /\
+  nodupb (g_lm (fst (M_irun s ops))) = true /\
+  M_iobserve (fst (M_irun s ops)) = S_iobserve (g_lm s ++ S_igiven (g_lm s) ops).
+Proof.
+  intros ops s Hwf Hd. destruct (igo_refines ops s Hwf Hd) as (Hw & Hl & _).
+  rewrite S_irun_append_only in Hl. split; [exact Hl|]. split.
+  - destruct Hw as (_ & Hn & _). exact Hn.
+  - rewrite (igo_observe _ Hw), Hl. reflexivity.
+Qed.
+
+(* OUTSIDE any guard: the list of labels of the implementation model never loses or reorders a label *)
+Lemma M_append_prefix : forall s v, exists t, g_lm (fst (M_append s v)) = g_lm s ++ t.
+Proof.
+  intros s v. unfold GrowOnly.M_append.
+  pose proof (contains_state_lm s v) as Hl.
+  destruct (M_contains s v); [exists []; cbn; now rewrite app_nil_r, Hl|].
+  destruct (g_map (M_contains_state s v)); [exists [v]; cbn; now rewrite Hl|].
+  destruct (match as_pos v with Some z => z =? g_cnt (M_contains_state s v) | None => false end);
+    [exists [v]; cbn; now rewrite Hl|].
+  destruct (nodupb (g_lm (M_contains_state s v) ++ [v])); exists [v]; cbn; now rewrite Hl.
+Qed.
+
+Lemma M_extend_prefix : forall vs s, exists t, g_lm (fst (M_extend s vs)) = g_lm s ++ t.
+Proof.
+  induction vs as [|v r IH]; intros s; cbn.
+  - exists []. now rewrite app_nil_r.
+  - destruct (M_append_prefix s v) as [t1 H1].
+    destruct (GrowOnly.M_append L leq as_pos s v) as [s1 o]. cbn in H1. destruct o.
+    + destruct (IH s1) as [t2 H2]. exists (t1 ++ t2). now rewrite H2, H1, app_assoc.
+    + exists t1. exact H1.
+Qed.
+
+Theorem M_irun_prefix : forall ops s, exists t, g_lm (fst (M_irun s ops)) = g_lm s ++ t.
+Proof.
+  induction ops as [|op r IH]; intros s; cbn.
+  - exists []. now rewrite app_nil_r.
+  - assert (H1 : exists t, g_lm (fst (M_istep s op)) = g_lm s ++ t).
+    { destruct op; cbn; [apply M_append_prefix | apply M_extend_prefix | exists []; now rewrite refresh_lm, app_nil_r]. }
+    destruct H1 as [t1 H1].
+    destruct (GrowOnly.M_istep L leq as_pos s op) as [s1 o]. cbn in H1.
+    destruct (IH s1) as [t2 H2]. destruct (GrowOnly.M_irun L leq as_pos s1 r) as [s2 os]. cbn in *.
+    exists (t1 ++ t2). now rewrite H2, H1, app_assoc.
+Qed.
+
+(* OUTSIDE any guard, on an index that has a map (every index built from explicit labels):
+   a rejected append leaves the model state exactly as it was *)
+Theorem M_append_atomic_with_map : forall s v e, g_map s <> None ->
+  snd (M_append s v) = Err e -> fst (M_append s v) = s.
+Proof.
+  intros s v e Hmap. unfold GrowOnly.M_append, GrowOnly.M_contains_state, GrowOnly.M_contains.
+  destruct (g_map s) as [keys|] eqn:E; [|congruence].
+  destruct (mem v keys); cbn; [reflexivity|]. rewrite E. cbn. discriminate.
 Qed.
 
 End IndexProofs.
